@@ -1,3 +1,4 @@
+import Amqp.Lemmas.ConsumeLoop
 import Amqp.Model.Consumers
 import Amqp.Model.Close
 import Amqp.Lemmas.TagReuse
@@ -550,5 +551,28 @@ def demo : List Act :=
 example : (run {} demo).map (fun s => (s.broker, s.tags)) = some ([], []) := by decide
 example : (run {} demo).map (fun s => s.dispatched) = some [("a", some 7)] := by decide
 example : (run {} demo).map (fun s => s.cancelsSeen) = some ["a"] := by decide
+
+/-! ## `start_consuming` returns once no consumer is left (loop model shared with C03) -/
+
+/-- tie: the loop of `Channel.start_consuming` as extracted on this run -/
+theorem consume_loop_program : ConsumeLoop.program = some ConsumeLoop.goodProg := by decide
+
+/-- **start_consuming returns once none are left**: in every state the loop can reach (any interleaving of
+    deliveries, cancels by the broker or the application, consumers added while others are active) from
+    which the channel lists no consumer any more, the consuming thread leaves the loop within two iterations;
+    and it never leaves it while it has just seen a consumer (`Inv.ret`: it returns only after a look that
+    found none). -/
+theorem start_consuming_returns_once_none_left (n : Nat) (as : List ConsumeLoop.Act) (s : ConsumeLoop.S)
+    (h : ConsumeLoop.run (ConsumeLoop.init ConsumeLoop.goodProg n) as = some s) (ht : s.tags = 0) :
+    (ConsumeLoop.spin 7 s).done = true ∧ (s.done = true → s.sampled = false) := by
+  have inv := ConsumeLoop.run_inv _ _ as (ConsumeLoop.inv_init n) h
+  refine ⟨?_, fun hd => (inv.ret hd).1⟩
+  obtain ⟨hp, _, hle, hu, _, hr⟩ := inv
+  by_cases hdn : s.done = true
+  · simp [ConsumeLoop.spin, ConsumeLoop.step, hdn]
+  · have hpc : s.pc = 0 ∨ s.pc = 1 ∨ s.pc = 2 ∨ s.pc = 3 := by omega
+    have hf : s.done = false := by simpa using hdn
+    cases hsm : s.sampled <;> rcases hpc with h | h | h | h <;>
+      simp [ConsumeLoop.spin, ConsumeLoop.step, ConsumeLoop.stepOp, hp, ConsumeLoop.goodProg, hf, h, hsm, ht]
 
 end Amqp.C14
